@@ -752,6 +752,10 @@ func (vfs *OrefaFS) RemoveAll(path string) error {
 		return &fs.PathError{Op: op, Path: path, Err: vfs.err.InvalidArgument}
 	}
 
+	// The nodes are locked in the order of Remove: the parent, then the child and its descendants.
+	parent.mu.Lock()
+	defer parent.mu.Unlock()
+
 	// removeAll removes child and everything below it from the node map.
 	vfs.removeAll(absPath, child)
 
@@ -761,6 +765,9 @@ func (vfs *OrefaFS) RemoveAll(path string) error {
 }
 
 func (vfs *OrefaFS) removeAll(absPath string, rootNode *node) {
+	rootNode.mu.Lock()
+	defer rootNode.mu.Unlock()
+
 	if rootNode.dir {
 		for fileName, nd := range rootNode.children {
 			path := absPath + string(vfs.PathSeparator()) + fileName
